@@ -3,6 +3,7 @@ package props
 import (
 	"fmt"
 	"math/rand/v2"
+	"strings"
 	"time"
 
 	"verif/sim/drv"
@@ -21,7 +22,7 @@ func (C03) Rule() string {
 		"or abrupt process exit at idle; the next lifetime is a FRESH process on the same directories. Oracle: the complete observable snapshot (repos/info without the mutation-id counter, " +
 		"note/log/status of every version, every catalogue read of every instance at every version) taken just before the stop equals the one taken after start-up; the model keeps running across " +
 		"the restart, so state rebuilt at start-up must also behave like the state it replaced (later reads vs the reference resolver, graph invariants, id uniqueness). " +
-		"non-trivial = at least one restart after at least one merge/branch and one write; distinct = distinct (steps, schedule, faults) hash"
+		"an 'all-types' family does the same on a populated repository holding one instance of every catalogue type (labelmap with synced annotation and labelsz, keyvalue, neuronjson, roi, uint8blk) with valid mutations of every type in open versions between the restarts; non-trivial = at least one restart after at least one merge/branch and one write; distinct = distinct (steps, schedule, faults) hash"
 }
 func (C03) Assumptions() []string { return commonAssumptions }
 func (C03) Budget(tier string) (int, time.Duration) {
@@ -29,6 +30,31 @@ func (C03) Budget(tier string) (int, time.Duration) {
 }
 
 func (C03) Generate(r *rand.Rand, tier string, idx int) *drv.Scenario {
+	if idx%6 == 5 {
+		// all-types family: a populated repository with one instance of every catalogue type (labelmap with
+		// synced annotation and labelsz, keyvalue, neuronjson, roi, uint8blk), valid mutations of every
+		// type in open versions, commits and new versions, with clean and kill restarts in between
+		seed := func() int64 { return int64(r.Uint64N(1 << 40)) }
+		steps := []drv.Op{{Op: "c2setup", N: seed()}, {Op: "newver", V: 0, N: 1}}
+		head, next := 1, 2
+		n := 8 + r.IntN(14)
+		for i := 0; i < n; i++ {
+			switch x := r.IntN(20); {
+			case x < 14:
+				steps = append(steps, drv.Op{Op: "catmut", V: head, N: seed()})
+			case x < 16 && next < 5:
+				steps = append(steps, drv.Op{Op: "commit", V: head}, drv.Op{Op: "newver", V: head, N: int64(next)})
+				head, next = next, next+1
+			default:
+				steps = append(steps, drv.Op{Op: "restart", Mode: pick(r, []string{"clean", "kill"})})
+			}
+		}
+		steps = append(steps, drv.Op{Op: "restart", Mode: pick(r, []string{"clean", "kill"})}, drv.Op{Op: "catmut", V: head, N: seed()}, drv.Op{Op: "restart", Mode: "clean"})
+		k := baseKnobs(r)
+		k.ShutDelay = r.IntN(3)
+		k.AllowSplit = true
+		return &drv.Scenario{Family: "all-types", Knobs: k, Steps: steps, Fixed: 2}
+	}
 	o := KVGenOpts{
 		MaxVersions: 4 + r.IntN(8),
 		Keys:        []string{"a", "b", "c", "ab"}[:2+r.IntN(3)],
@@ -92,9 +118,35 @@ func (C03) Execute(sc *drv.Scenario, w *drv.World) (*drv.Violation, error) {
 		return nil, err
 	}
 	x := NewKVExec(w)
+	e2 := &c2Exec{w: w, x: x, snaps: map[int]*Snapshot{}}
 	for i, op := range sc.Steps {
 		w.CurStep = i
+		switch op.Op {
+		case "c2setup":
+			if err := (C02{}).setup(e2, op); err != nil {
+				return nil, err
+			}
+			continue
+		case "catmut":
+			if !x.D.Has(op.V) || x.D.Nodes[op.V].Locked {
+				continue
+			}
+			r := drv.NewRNG(uint64(op.N))
+			cat := Catalogue[r.IntN(len(Catalogue))]
+			muts := cat.Muts(r, e2.base(op.V, cat.Name))
+			rq := muts[r.IntN(len(muts))]
+			if _, _, err := w.HTTP(rq.Method, rq.URL, rq.Body); err != nil {
+				return nil, err
+			}
+			w.Stats.Probe("mutation-" + cat.Type)
+			continue
+		}
 		if op.Op == "restart" {
+			if sc.Family == "all-types" {
+				if err := w.Barrier(); err != nil {
+					return nil, err
+				}
+			}
 			before, err := TakeSnapshot(w, SnapOpts{})
 			if err != nil {
 				return nil, err
@@ -188,6 +240,15 @@ func checkGraphNow(w *drv.World, prop string) (*drv.Violation, error) {
 }
 
 func (C03) NonTrivial(sc *drv.Scenario, st *drv.RunStats) bool {
+	if sc.Family == "all-types" {
+		kinds := 0
+		for k := range st.Probes {
+			if strings.HasPrefix(k, "mutation-") {
+				kinds++
+			}
+		}
+		return kinds >= 2 && st.Probes["restart-compared"] > 0
+	}
 	structural, write := false, false
 	for _, op := range sc.Steps {
 		if op.Op == "restart" {
